@@ -7,12 +7,12 @@ type threadState struct {
 	inAtomic int
 }
 
-func (t *threadState) access(i *Interp, addr *value, write bool)                {}
-func (t *threadState) lock(i *Interp, p, st, sema *value)                       { i.unsupported("threads: lock") }
-func (t *threadState) unlock(i *Interp, p, st, sema *value)                     { i.unsupported("threads: unlock") }
-func (t *threadState) syncPoint(i *Interp, what string)                         {}
-func (t *threadState) acquire(i *Interp, key any)                               {}
-func (t *threadState) release(i *Interp, key any)                               {}
+func (t *threadState) access(i *Interp, addr *value, write bool) {}
+func (t *threadState) lock(i *Interp, p, st, sema *value)        { i.unsupported("threads: lock") }
+func (t *threadState) unlock(i *Interp, p, st, sema *value)      { i.unsupported("threads: unlock") }
+func (t *threadState) syncPoint(i *Interp, what string)          {}
+func (t *threadState) acquire(i *Interp, key any)                {}
+func (t *threadState) release(i *Interp, key any)                {}
 func (t *threadState) spawn(i *Interp, fr *frame, instr *ssa.Go, fn value, args []value) {
 	i.unsupported("threads: spawn")
 }
